@@ -95,6 +95,11 @@ impl StateMachine<'_> {
         self.minus_file_event = file_event;
 
         if self.source == Source::DiffUnified {
+            // A new file section starts here (there need not be a `diff` line in front of it):
+            // its header is due even if it is about the same pair of files as the previous one.
+            if self.line.starts_with("--- ") {
+                self.handled_diff_header_header_line_file_pair = None;
+            }
             self.state = State::DiffHeader(DiffType::Unified);
             self.painter
                 .set_syntax(get_filename_from_marker_line(&self.line));
